@@ -547,3 +547,103 @@ func ruleBytesTextPathASCII(p *Program, r *Report) {
 }
 
 func init() { register("C12", Rule{"R12d", ruleBytesTextPathASCII}) }
+
+// R12e: the heading form of a relation is written only for names the heading rule can read.  The grammar's
+// `{|a, b| …}` heading accepts identifiers only (no quoted names).  Relation.Format may therefore write the bar
+// form only under a test that every name is an identifier — the same regular expression TupleNameRepr tests — and
+// must not put names through a quoting function inside the bars.
+func ruleHeadingOnlyIdentifiers(p *Program, r *Report) {
+	r.Begin("R12e", "relation headings: in Relation.Format the write of the `|names|` heading is control-dependent on a match of the identifier pattern (the regexp TupleNameRepr uses), and the names written between the bars do not come out of a quoting function (TupleNameRepr, strconv.Quote, %q)", 2)
+	defer r.End()
+	fm := p.Method("rel", "Relation", "Format")
+	tnr := p.Func("rel", "TupleNameRepr")
+	if fm == nil || tnr == nil {
+		r.Undecided("anchor", "rel.Relation.Format / rel.TupleNameRepr not found", 0)
+		return
+	}
+	r.Fn(FnName(fm))
+	// the identifier regexp: the regexp global TupleNameRepr loads
+	var identG *ssa.Global
+	ForEachInstr(tnr, func(ins ssa.Instruction) {
+		if ld, ok := ins.(*ssa.UnOp); ok && ld.Op == token.MUL {
+			if g, ok := ld.X.(*ssa.Global); ok && strings.HasSuffix(g.Type().String(), "regexp.Regexp") {
+				identG = g
+			}
+		}
+	})
+	if identG == nil {
+		r.Undecided("ident", "TupleNameRepr does not test a regexp global", tnr.Pos())
+		return
+	}
+	isIdentTest := func(x ssa.Value) bool {
+		c, ok := x.(*ssa.Call)
+		if !ok {
+			return false
+		}
+		if g := c.Call.StaticCallee(); g != nil && strings.Contains(g.String(), "regexp.Regexp).Match") && len(c.Call.Args) > 0 {
+			if ld, ok := c.Call.Args[0].(*ssa.UnOp); ok && ld.X == ssa.Value(identG) {
+				return true
+			}
+		}
+		return false
+	}
+	var funcs []*ssa.Function
+	allFuncs(fm, &funcs)
+	// package-local helpers of the printer
+	ForEachInstr(fm, func(ins ssa.Instruction) {
+		if c, ok := ins.(*ssa.Call); ok {
+			if g := c.Call.StaticCallee(); g != nil && g.Pkg == fm.Pkg && g.Blocks != nil && g != tnr && g.Signature.Recv() != nil {
+				if nt, ok := Deref(g.Signature.Recv().Type()).(*types.Named); ok && nt.Obj().Name() == "Relation" && g.Name() != "projectionBasedOnNames" {
+					allFuncs(g, &funcs)
+				}
+			}
+		}
+	})
+	found := 0
+	for _, fn := range funcs {
+		pd := NewPostDom(fn)
+		ForEachInstr(fn, func(ins ssa.Instruction) {
+			c, ok := ins.(*ssa.Call)
+			if !ok {
+				return
+			}
+			// a write whose constant text contains the bar
+			bar := false
+			for _, a := range c.Call.Args {
+				if k, ok := a.(*ssa.Const); ok && k.Value != nil && k.Value.Kind() == constant.String && strings.Contains(constant.StringVal(k.Value), "|") {
+					bar = true
+				}
+			}
+			if !bar {
+				return
+			}
+			found++
+			guarded := false
+			for _, d := range pd.TransitiveControlDeps(c.Block()) {
+				if cond := IfCond(d.Br); cond != nil && DependsOn(cond, isIdentTest) {
+					guarded = true
+				}
+			}
+			r.Check(guarded, fmt.Sprintf("heading-guard@%s~%d", FnName(fm), found), "bar form written only when every name matched the identifier pattern", fmt.Sprintf("%s writes the `|names|` heading without testing that the names are identifiers: a relation with an attribute such as 'a b' prints a heading the grammar cannot read back", FnName(fn)), c.Pos())
+			quoted := ""
+			for _, a := range c.Call.Args {
+				DependsOn(a, func(x ssa.Value) bool {
+					if cc, ok := x.(*ssa.Call); ok {
+						nm := CalleeName(&cc.Call)
+						if cc.Call.StaticCallee() == tnr || strings.HasPrefix(nm, "strconv.Quote") {
+							quoted = nm
+							return true
+						}
+					}
+					return false
+				})
+			}
+			r.Check(quoted == "", fmt.Sprintf("heading-raw@%s~%d", FnName(fm), found), "names between the bars are written as they are", fmt.Sprintf("%s writes heading names through %s: a name that is quoted there (`.`, `@{x}`, 'a b') is not an identifier token, and the heading rule accepts identifiers only — the printed relation does not parse", FnName(fn), quoted), c.Pos())
+		})
+	}
+	if found == 0 {
+		r.Undecided("heading", "no write of the bar form found in Relation.Format", fm.Pos())
+	}
+}
+
+func init() { register("C12", Rule{"R12e", ruleHeadingOnlyIdentifiers}) }
